@@ -316,6 +316,10 @@ pub fn run(ctx: &mut Ctx) {
                 ])
             };
             // the implementation's value, computed independently with the same generator
+            // families of the additional thorough-tier zoo are labelled XF<n>
+            #[cfg(feature = "extra_zoo")]
+            let fams = if p.family.starts_with('X') { vcore::zoo_extra::families() } else { vcore::zoo::families() };
+            #[cfg(not(feature = "extra_zoo"))]
             let fams = vcore::zoo::families();
             let produced = fams.get(p.index).and_then(|f| f.versions.get(j as usize)).map(|e| {
                 let mut r2 = Rng::new(seed);
